@@ -35,10 +35,17 @@ pub fn run(ctx: &mut Ctx) {
     let skew = read_nums(&format!("{}/skew.txt", d));
     let lw = read_nums(&format!("{}/logwalsh.txt", d));
     let mb = read_nums(&format!("{}/mulbasis.txt", d));
+    // tables produced by the transliterated construction algorithms (Model/TableInit.lean)
+    let iexp = read_nums(&format!("{}/init_exp.txt", d));
+    let ilog = read_nums(&format!("{}/init_log.txt", d));
+    let iskew = read_nums(&format!("{}/init_skew.txt", d));
     let _ = std::fs::remove_dir_all(&dir);
     if exp.len() != 65536 || log.len() != 65536 || skew.len() != 65535 || lw.len() != 65536 || mb.len() != 65536 * 16 {
         ctx.model_fail("rsmodel tables: wrong sizes".into(), &dummy, None);
         return;
+    }
+    if iexp != exp || ilog != log || iskew != skew {
+        ctx.model_fail("the transliterated table construction (initExpLog / initSkew) and the specified tables differ inside the model".into(), &dummy, None);
     }
     let mut entries = 0usize;
     let mut bad = |ctx: &mut Ctx, what: String| {
